@@ -2,6 +2,7 @@ import NumbatModel.Model.Printer
 import NumbatModel.Model.EchoParser
 import NumbatModel.Lemmas.Printer
 import NumbatModel.Lemmas.EchoParserMain
+import NumbatModel.Lemmas.EchoPrintIdem
 /-! # C15 — the echoed form of an input means the same as the input (property theorems) -/
 namespace NumbatModel.Printer
 
@@ -99,5 +100,34 @@ its printed form differs. Replayed on the implementation: known finding C15-mul-
 theorem print_not_fixed_point_regrouped_product :
     let e := Expr.bin .mul (.num 1 ['2']) (.bin .mul (.unit [] ['c', 'm']) (.unit [] ['s']))
     Frag e = true ∧ pp e = "2 × cm × s".toList ∧ pp (canon e) = "2 cm × s".toList := by decide
+
+/-! ## the printed form is a fixed point -/
+
+/-- `print_idempotent`: for **every** tree satisfying `Stable` (no constructor is excluded), printing the
+re-read tree `canon e` gives exactly the text of `e`.  `Stable` excludes two shapes only, each with a
+witness below: a scalar times a right-nested product that starts with a unit or identifier
+(`2 × (cm × s)`), and a conversion whose right operand is a conversion chain starting with a conditional
+(`a ➞ ((if …) ➞ c)`). -/
+theorem print_idempotent (e : Expr) (h : Stable e = true) : pp (canon e) = pp e := by
+  have := (idem e h).same.2
+  simp [pp, this]
+
+/-- `print_parse_print`: on `Frag ∩ Stable`, print ∘ parse ∘ print = print. -/
+theorem print_parse_print (e : Expr) (hF : Frag e = true) (hS : Stable e = true) :
+    ∃ n0, ∀ n, n0 ≤ n → (parseToks n (toks e)).map pp = some (pp e) := by
+  obtain ⟨n0, h⟩ := print_parse e hF
+  exact ⟨n0, fun n hn => by rw [h n hn]; simp [print_idempotent e hS]⟩
+
+example : Stable exTree = true := by decide
+example : pp (canon exTree) = pp exTree := print_idempotent exTree (by decide)
+
+/-- `print_not_fixed_point_conv_chain_cond`: `a ➞ ((if true then b else c) ➞ d)` is in `Frag`, is printed as
+`a ➞ (if true then b else c) ➞ d`, read back left-nested, and that tree is printed as
+`a ➞ if true then b else c ➞ d` (which no longer parses as the same tree). -/
+theorem print_not_fixed_point_conv_chain_cond :
+    let e := Expr.bin .conv (.ident ['a'])
+      (.bin .conv (.cond (.bool true) (.ident ['b']) (.ident ['c'])) (.ident ['d']))
+    Frag e = true ∧ Stable e = false ∧ pp e = "a ➞ (if true then b else c) ➞ d".toList ∧
+      pp (canon e) = "a ➞ if true then b else c ➞ d".toList := by decide
 
 end NumbatModel.Printer
